@@ -13,6 +13,18 @@ os.environ.setdefault("PYTHONHASHSEED", "0")
 from harness import common, dynamic, corpus, tlc   # noqa: E402
 from harness.common import Verdict                  # noqa: E402
 
+# every (action kind, deciding gate) class of NASimCore!Trans; a class never exercised on the implementation is
+# reported in the evidence as a coverage gap
+ALL_GATES = [(k, g) for k in ("service_scan", "os_scan", "subnet_scan", "process_scan", "exploit", "privesc")
+             for g in ("not_reach_disc",)] + \
+    [("service_scan", "no_pivot"), ("os_scan", "no_pivot"), ("exploit", "no_pivot"), ("exploit", "traffic_blocked"),
+     ("privesc", "privesc_uncompromised"), ("exploit", "unlucky"), ("privesc", "unlucky"),
+     ("subnet_scan", "sscan_uncompromised"), ("subnet_scan", "sscan_no_access"), ("subnet_scan", "sscan_ok"),
+     ("service_scan", "scan_ok"), ("os_scan", "scan_ok"), ("exploit", "exploit_ok"),
+     ("exploit", "exploit_cfg_fail_perm"), ("exploit", "exploit_cfg_fail"), ("process_scan", "onhost_no_access"),
+     ("process_scan", "pscan_ok"), ("privesc", "onhost_no_access"), ("privesc", "privesc_ok"),
+     ("privesc", "privesc_cfg_fail"), ("noop", "noop")]
+
 BASE_PROPS = ["C01", "C02", "C03", "C04", "C05", "C06", "C07", "C08", "C13"]
 DYNAMIC_PROPS = BASE_PROPS + ["C09", "C10", "C11", "C12"]
 GEN_BENCH = ["tiny-gen", "tiny-gen-rgoal", "small-gen", "small-gen-rgoal", "medium-gen", "large-gen", "huge-gen",
@@ -62,6 +74,10 @@ def dynamic_jobs(tier, seed, prop):
             jobs.append(rnd(("bench_yaml", "medium-multi-site"), 500, seed + 1))
             jobs.append(rnd(("bench_gen", "small-gen", seed % 50), 700, seed + 2))
             jobs.append(rnd(("bench_yaml", "tiny-small"), 700, seed + 3))
+            if prop in ("C07", "C14"):
+                # numpy's own generator draws (seeded by the harness), the draw is recorded, not scripted
+                jobs.append(rnd(("bench_yaml", "tiny"), 1500, seed + 4, record_draws=True, extras=False))
+                jobs.append(rnd(("corpus_dict", "os_mix"), 1500, seed + 5, record_draws=True, extras=False))
     elif prop == "C09":
         for n in ["os_mix", "chain", "fw_asym", "two_public"]:
             jobs.append(exh(("corpus_dict", n)))
@@ -98,6 +114,12 @@ def dynamic_jobs(tier, seed, prop):
         for n in ["tiny-hard", "tiny-small", "small-linear", "small", "small-honeypot"]:
             jobs.append(exh(("bench_yaml", n), foreign=(n.startswith("tiny")), workers=2, timeout=7200,
                             modes=ALL_MODES if (prop in ("C10", "C12") and n.startswith("tiny")) else replay_default()))
+        if prop in ("C07", "C14"):
+            for i, n in enumerate(["tiny", "tiny-small", "small", "medium"]):
+                jobs.append(rnd(("bench_yaml", n), 8000, seed + 300 + i, record_draws=True, extras=False))
+        if prop in BASE_PROPS:
+            for n in ["medium", "medium-single-site"]:
+                jobs.append(dict(src=("bench_yaml", n), spec_only=True, workers=8, timeout=7200))
         ls = prop == "C12"
         md = ALL_MODES if prop in ("C10", "C12") else replay_default()
         for i, n in enumerate(corpus.YAML_BENCHMARKS):
@@ -138,6 +160,7 @@ def check_dynamic(prop, tier, seed):
                 v.machinery.append("Apalache obligation '%s' on NASimSym.tla not discharged: %s" % (n_, tail_[-300:]))
     states = transitions = events = edges = 0
     classes = set()
+    seen_gates = set()
     clause_fail = collections.Counter()
     drift = collections.Counter()
     samples = []
@@ -157,6 +180,8 @@ def check_dynamic(prop, tier, seed):
         edges += r["edges_replayed"]
         for k in r["hist"]:
             classes.add((r["name"], k))
+            kind_, gate_ = k.split("/")[0], k.split("/")[1]
+            seen_gates.add((kind_, gate_))
         per_scn.append(dict(scenario=r["name"], spec_states=r["states"], spec_transitions=r["transitions"],
                             transitions_replayed=r["edges_replayed"], recorded_calls=r["events"],
                             gate_classes=len(r["hist"]), wall_s=round(r["wall"], 1)))
@@ -183,7 +208,8 @@ def check_dynamic(prop, tier, seed):
                exhaustive=False, samples=samples or [dict(note="no successful state-changing call recorded")],
                per_scenario=per_scn,
                failed_clauses={"%s/%s" % k: n for k, n in clause_fail.items()},
-               drift_notes={"%s/%s" % k: n for k, n in drift.items()}, notes=notes)
+               drift_notes={"%s/%s" % k: n for k, n in drift.items()}, notes=notes,
+               gate_classes_never_exercised=["%s/%s" % g for g in ALL_GATES if g not in seen_gates])
     if apa is not None:
         cov["apalache_symbolic_scenario_obligations"] = [dict(obligation=n_, discharged=ok_, seconds=sec_)
                                                         for (n_, ok_, sec_, _) in apa]
